@@ -7,7 +7,7 @@ from .changelogmodel import Model, M
 
 META = {
     'design_ref': 'DESIGN.md §5 C15',
-    'technique': 'typestate extraction: abstract transition system of parse_changelog (local closures inlined, quantifiers expanded, named conditions tracked) over (state constant, saved state, block-exists flag, language of the current line) with reachability; diagnostics funnel decided on its paths per value of the strict flag, who-may-call rule for warnings/raises, may-raise rule for property setters reached from the parser; regular-language side conditions for implicit exceptions (arity of every split of the line, group indices, group participation -- also of groups whose value is bound to a local and used as text);); line structure of every layout of the block writer (normal form); every optional attribute is decided absent or written in each returning world of the writer; line-primitive rule; whole texts built from line classes through the interpreted constructor and str(), twice (lenient returns; strict raises exactly when lenient warns; formatted text is a fixed point)',
+    'technique': 'typestate extraction: abstract transition system of parse_changelog (local closures inlined, quantifiers expanded, named conditions tracked) over (state constant, saved state, block-exists flag, language of the current line) with reachability; diagnostics funnel decided on its paths per value of the strict flag, who-may-call rule for warnings/raises, may-raise rule for property setters reached from the parser; regular-language side conditions for implicit exceptions (arity of every split of the line, group indices, group participation -- also of groups whose value is bound to a local and used as text);); line structure of every layout of the block writer (normal form); every optional attribute is decided absent or written in each returning world of the writer; line-primitive rule; whole texts built from line classes through the interpreted constructor and str(), twice (lenient returns; strict raises exactly when lenient warns; formatted text is a fixed point); a memoised function does nothing but compute its result (no warning, log record or mode-dependent report in it or in the functions it calls); the transition-system rules are a second opinion behind the interpreted texts where the loop leaves their vocabulary',
     'level_text': 'Static decision over all line sequences: every reachable abstract state is handled, `assert False` is unreachable, '
                   'self._blocks[-1] is only evaluated when a block exists, warnings and parse errors are produced only through _parse_error '
                   'with the caller\'s strict flag (so strict raises exactly where lenient first warns), no other exception source is '
